@@ -824,6 +824,7 @@ type qSim struct {
 	schedQ    []qOp
 	bindQ     []func()
 	quotaAdding string
+	knownQuotas map[string]bool // quotas whose add has been handled completely (they define the manager's resource dimensions)
 	inFlight    map[string]bool
 	foreign, everScheduled map[string]bool
 	apiDone   bool
@@ -892,6 +893,14 @@ func (s *qSim) staleCycleObject(pod *corev1.Pod) {
 	}
 }
 
+// usedBeforeKeys: with ElasticQuotaGuaranteeUsage on, `allocated` only follows `used` in the dimensions some quota's max
+// has declared so far (gqm.resourceKeys); usage that arrives while no quota exists yet is never added to `allocated`.
+func (s *qSim) usedBeforeKeys(pod *corev1.Pod) {
+	if s.cfg.Guarantee && len(s.knownQuotas) == 0 && pod != nil {
+		s.r.Tag("guarantee-gate-used-before-any-quota")
+	}
+}
+
 func (s *qSim) aroundPodEvent(pod *corev1.Pod, fn func()) {
 	parked := s.parkedInDefault(pod)
 	if parked && s.busy["migrator"] {
@@ -913,10 +922,16 @@ func (s *qSim) deliver(ev qEvent) {
 			s.quotaAdding = ev.new.(*v1alpha1.ElasticQuota).Name
 			s.pl.OnQuotaAdd(ev.new)
 			s.quotaAdding = ""
+			s.knownQuotas[ev.new.(*v1alpha1.ElasticQuota).Name] = true
 		case "update":
 			s.pl.OnQuotaUpdate(ev.old, ev.new)
 		case "delete":
 			s.pl.OnQuotaDelete(ev.old)
+			delete(s.knownQuotas, ev.old.(*v1alpha1.ElasticQuota).Name)
+			if s.cfg.Guarantee && len(s.knownQuotas) == 0 && len(s.st.pods) > 0 {
+				// the last quota is gone: the manager's resource dimensions become empty while pods still hold usage
+				s.r.Tag("guarantee-gate-used-before-any-quota")
+			}
 		}
 	case "pod":
 		switch ev.kind {
@@ -925,6 +940,9 @@ func (s *qSim) deliver(ev qEvent) {
 			s.delivered[np.Name] = np
 			// the add of a pod overlapping the add of its own quota (tree map already updated, quotaInfoMap not yet)
 			overlap := s.quotaAdding != "" && s.quotaAdding == np.Labels[extension.LabelQuotaName]
+			if np.Spec.NodeName != "" {
+				s.usedBeforeKeys(np)
+			}
 			s.pl.OnPodAdd(ev.new)
 			s.processed[np.Name] = np // no scheduling point between the handler's return and this line
 			if overlap || (s.quotaAdding != "" && s.quotaAdding == np.Labels[extension.LabelQuotaName]) {
@@ -945,6 +963,9 @@ func (s *qSim) deliver(ev qEvent) {
 				// a pod's requests change while an older copy of the pod object is still held by the default-quota
 				// pod cache (used later by MigratePod) or by the scheduling cycle (used later by Unreserve)
 				s.r.Tag("stale-pod-object")
+			}
+			if np.Spec.NodeName != "" {
+				s.usedBeforeKeys(np)
 			}
 			s.aroundPodEvent(op, func() { s.pl.OnPodUpdate(ev.old, ev.new); s.processed[np.Name] = np })
 			if s.quotaAdding != "" && s.quotaAdding == np.Labels[extension.LabelQuotaName] {
@@ -1015,6 +1036,7 @@ func (s *qSim) cycle(op qOp, strict bool) {
 	}
 	var st *fwktype.Status
 	s.staleCycleObject(pod)
+	s.usedBeforeKeys(pod)
 	s.aroundPodEvent(pod, func() { st = s.pl.Reserve(context.TODO(), framework.NewCycleState(), pod, "node-0") })
 	s.staleCycleObject(pod) // evaluated on both sides of the call: the plugin may process an update while Reserve waits for the lock
 	if !st.IsSuccess() {
@@ -1057,7 +1079,7 @@ func (s *qSim) cycle(op qOp, strict bool) {
 }
 
 func (quotaEngine) Execute(r *sim.Run) {
-	s := &qSim{r: r, st: newQStore(), queues: map[string][]qEvent{}, busy: map[string]bool{}, delivered: map[string]*corev1.Pod{}, processed: map[string]*corev1.Pod{}, inFlight: map[string]bool{}, foreign: map[string]bool{}, everScheduled: map[string]bool{}}
+	s := &qSim{r: r, st: newQStore(), queues: map[string][]qEvent{}, busy: map[string]bool{}, delivered: map[string]*corev1.Pod{}, processed: map[string]*corev1.Pod{}, knownQuotas: map[string]bool{}, inFlight: map[string]bool{}, foreign: map[string]bool{}, everScheduled: map[string]bool{}}
 	r.Plan.GetCfg(&s.cfg)
 	var ops []qOp
 	r.Plan.GetOps(&ops)
